@@ -64,7 +64,7 @@ Example c22_nonvacuous :
   sc_st (scalls (run c22_demo) 1) = Ended EReplaced /\
   s_epoch (ses (run c22_demo) 0) = 3 /\ quiescent (run c22_demo).
 Proof.
-  repeat split; try reflexivity.
-  - destruct c as [|[|[|c]]]; cbn; auto.
-  - destruct c as [|[|[|c]]]; cbn; auto.
+  split; [vm_compute; reflexivity|]. split; [vm_compute; reflexivity|]. split; [vm_compute; reflexivity|].
+  split; [vm_compute; reflexivity|].
+  intros c. destruct c as [|[|[|c]]]; vm_compute; auto.
 Qed.
